@@ -1062,6 +1062,102 @@ func subOpAgain(f Fields) string {
 	return last
 }
 
+// subScribble overwrites the caller's glyph slice (it is the caller's to reuse after the call).
+func subScribble(gl []glyph.ID) {
+	for i := range gl {
+		gl[i] = 0
+	}
+}
+
+// subOpIndep: the subset must not depend on its argument after the call.  Font.Subset is run until
+// the glyph order is the `order` field, then the caller's glyph slice is overwritten, and only then
+// is the result rendered; it must still be what the model gives.
+func subOpIndep(f Fields) string {
+	want := f["order"]
+	sf, _, ok := subParseCase(f)
+	if !ok {
+		return "panic"
+	}
+	start := time.Now()
+	last := "order-not-reproduced"
+	for try := 0; try < subMaxTries; try++ {
+		var b *subBuilt
+		var res *sfnt.Font
+		var gl []glyph.ID
+		out := guard(func() string {
+			b = subBuild(sf)
+			gl = subGlyphList(f["glyphs"]) // a fresh slice, cap == len
+			res = b.font.Subset(gl)
+			return ""
+		})
+		if out != "" {
+			return "panic"
+		}
+		var order, R string
+		out = guard(func() string {
+			order, _ = subRender(b, res)
+			return ""
+		})
+		if out != "" {
+			return "render-" + out
+		}
+		if order != want {
+			last = "order-not-reproduced:" + order
+			if try%16 == 15 && time.Since(start) > 2*time.Second {
+				break
+			}
+			continue
+		}
+		subScribble(gl)
+		out = guard(func() string {
+			_, R = subRender(b, res)
+			return ""
+		})
+		if out != "" {
+			return "render-" + out
+		}
+		return R
+	}
+	return last
+}
+
+// subOpIndepCff: the same for (*cff.Outlines).Subset called directly.
+func subOpIndepCff(f Fields) string {
+	sf, _, ok := subParseCase(f)
+	if !ok {
+		return "panic"
+	}
+	var b *subBuilt
+	var res *sfnt.Font
+	var gl []glyph.ID
+	out := guard(func() string {
+		b = subBuild(sf)
+		o, isCFF := b.font.Outlines.(*cff.Outlines)
+		if !isCFF {
+			return "not-cff"
+		}
+		gl = subGlyphList(f["glyphs"])
+		res = &sfnt.Font{Outlines: o.Subset(gl)}
+		return ""
+	})
+	if out == "not-cff" {
+		return out
+	}
+	if out != "" {
+		return "panic"
+	}
+	subScribble(gl)
+	var R string
+	out = guard(func() string {
+		_, R = subRender(b, res)
+		return ""
+	})
+	if out != "" {
+		return "render-" + out
+	}
+	return R
+}
+
 const subMaxTries = 5000
 
 // subMaxSearch bounds the search for the recorded order in wall-clock time (the harness gives up
@@ -1200,6 +1296,8 @@ func init() {
 	ops["subset.cffrun"] = subOpCffRun
 	ops["subset.encrt"] = subOpEncRT
 	ops["subset.again"] = subOpAgain
+	ops["subset.indep"] = subOpIndep
+	ops["subset.indepcff"] = subOpIndepCff
 	ops["subset.mustwrite"] = subOpWritable // D replay op: the property claims every subset can be written
 }
 
@@ -2012,6 +2110,13 @@ func areaSubset(c *Ctx) {
 				ag := c.Case(Direct, "subset.again", fontArgs+" first="+subJoin(fl, ",")+glyphsArg+" order="+ord2, nontrivial)
 				c.Stat("again_outcome", subClass(ag))
 			}
+		}
+		// the subset must not share memory with the caller's glyph slice
+		if sf.kind != "ttf" && status == "" {
+			in1 := c.Case(Direct, "subset.indep", fontArgs+glyphsArg+" order="+order, nontrivial)
+			c.Stat("indep_outcome", subClass(in1))
+			in2 := c.Case(Direct, "subset.indepcff", fontArgs+glyphsArg, nontrivial)
+			c.Stat("indepcff_outcome", subClass(in2))
 		}
 		if sf.kind == "cff" && !sf.encNil && status == "" {
 			er := c.Case(Direct, "subset.encrt", fontArgs+glyphsArg+" order="+order, nontrivial)
